@@ -247,7 +247,8 @@ def gen_threads_case(rng, nconf):
     ]
     fb = rng.choice(["explicit", "implicit"])
     sv = rng.choice([None, 4])
-    for bs in (250, 64, 7, 1):
+    # session 2 (seed C11-10): magnitudes -- block sizes far above the item count (one block, any internal budget exceeded)
+    for bs in (250, 64, 7, 1, 50000, 1000000):
         models.append([f"iknn-bs{bs}", "iknn", {"max_nbrs": 5, "block_size": bs, "feedback": fb, "save_nbrs": sv}])
     return {"type": "threads", "dataset": gen_big_dataset(rng), "seed": rng.randint(1, 10**6), "models": models,
             "configs": THREAD_CONFIGS[:nconf]}
